@@ -635,7 +635,16 @@ def gen_recipe(rng, name: str, thorough: bool) -> Dict[str, Any]:
         v = rng.choice(pool) if rng.random() < 0.5 else fresh
         if isinstance(v, float) and v != v:
             v = 0.0
-        if c < 4:
+        if cls == "int" and rng.random() < 0.12:
+            # a bool under an integer type (bool is a subclass of int): written 1/0, read back as 1/0
+            b = rng.random() < 0.5
+            ops.append(rng.choice([["rt", tok_val(b)], ["spell", "canon", tok_val(b), "1" if b else "0"],
+                                   ["set", tok_val(b)], ["out", tok_val(b)]]))
+        elif cls == "int" and rng.random() < 0.04:
+            # int() of other things (correspondence only)
+            ops.append(["out", rng.choice(["none", "s:" + tok_str("12"), "s:" + tok_str(" -7 "), "s:" + tok_str("abc"),
+                                           "s:" + tok_str("1_0"), "d:2024.2.29", "t:1.2.3", "dt:2024.2.29.1.2.3@0"])])
+        elif c < 4:
             ops.append(["rt", tok_val(g_value(rng, cls, False, None) if rng.random() < 0.7 else v)])
         elif c < 6:
             sps = spellings(rng, v)
@@ -701,7 +710,8 @@ def corpus() -> List[Dict[str, Any]]:
                  ["setupnp", "2024-02-28T06:30:00-05:00"], ["setupnp", "2024-02-28T06:30:00"], ["getupnp"]]},
         {"type": "ui1", "strict": True, "decl": {"range": True, "min": "0", "max": "255", "allowed": None},
          "dval": {"min": "i:0", "max": "i:255", "allowed": None},
-         "ops": [["set", "i:255"], ["set", "i:256"], ["set", "b:1"], ["setupnp", "300"], ["setupnp", "abc"], ["setupnp", "7"],
+         "ops": [["rt", "b:1"], ["rt", "b:0"], ["spell", "canon", "b:1", "1"], ["out", "none"], ["out", "s:" + tok_str("12")],
+                 ["set", "i:255"], ["set", "i:256"], ["set", "b:1"], ["getupnp"], ["setupnp", "300"], ["setupnp", "abc"], ["setupnp", "7"],
                  ["validate", "i:-1"], ["validate", "s:" + tok_str("1")], ["getupnp"]]},
         {"type": "string", "strict": False, "decl": {"range": False, "min": None, "max": None, "allowed": ["PLAY", "STOP"]},
          "dval": {"min": None, "max": None, "allowed": ["s:" + tok_str("PLAY"), "s:" + tok_str("STOP")]},
